@@ -112,3 +112,18 @@ Theorem C06_tuple_key_is_a_dict_key :
   = getitem R rO a (KDict (map (fun p => (KLetter (dletter (snd p)), ISingle (fst p))) (combine its dsel))).
 Proof. exact getitem_tuple_is_dict. Qed.
 Print Assumptions C06_tuple_key_is_a_dict_key.
+
+(* items_where reports exactly the entries that meet the condition, under their true labels, each once, in row-major order *)
+From Flodym Require Import Model.Instances Corr.Indexing Proofs.ItemsWhere.
+Theorem C06_items_where_reports_entries_under_their_true_labels :
+  forall (a : fQ) labs,
+  In labs (items_where_neg a) <->
+  exists idx, Forall2 lt idx (dshape (adims a)) /\ labs = labels_at a idx /\ is_neg a idx = true.
+Proof. exact items_where_spec. Qed.
+Print Assumptions C06_items_where_reports_entries_under_their_true_labels.
+
+Theorem C06_items_where_reports_each_entry_once_in_array_order :
+  forall a : fQ, items_where_neg a = map (labels_at a) (filter (is_neg a) (all_idx (dshape (adims a))))
+  /\ NoDup (filter (is_neg a) (all_idx (dshape (adims a)))).
+Proof. exact items_where_is_the_filtered_index_list. Qed.
+Print Assumptions C06_items_where_reports_each_entry_once_in_array_order.
